@@ -3,7 +3,7 @@ from __future__ import annotations
 
 import ast
 
-from .. import astu, flow, types
+from .. import astu, evid, flow, types
 from ..cfg import cfg_of
 from ..model import AnalysisError
 from ..report import key_of
@@ -34,19 +34,32 @@ def _once_before_each_return(c, events, returns, entry=None):
   return True, ''
 
 
+def _once(R, repo, c, f, ev, rets, key, msg, what, extra_ok=True):
+  """Located events: exactly once before each of `rets` (positive evidence either way); no event left in f or its helpers: violation."""
+  if not ev:
+    if evid.calls_deep(repo, f, lambda x: astu.src(x.func) == what or astu.src(x.func).endswith('.' + what.split('.')[-2] + '.' + what.split('.')[-1]) if '.' in what else False):
+      R.unsure(key, f, '%s is called from a helper' % what)
+    else:
+      R.fail(key, f, '%s: no call of %s is left' % (msg, what))
+    return
+  if not rets:
+    R.unsure(key, f, 'return statements not recognised (%s)' % msg)
+    return
+  ok, why = _once_before_each_return(c, ev, rets)
+  R.check(ok and extra_ok, key, f, '%s: %s' % (msg, why), evidence=True)
+
+
 @rule('C08.R1', 'K5+K2', 10, 'producer / consumer deques: one entry appended per graph-node leaf, one popped, on every path')
 def r1(R, repo):
   ad = repo.mod(AD)
   sp = ad.func('_grad_general.grad_wrapper._grad_split_fn')
   c = cfg_of(sp)
   ev = _call_nodes(c, sp, lambda x: astu.src(x.func) == 'nondiff_states.append')
-  ok, why = _once_before_each_return(c, ev, _returns(c))
-  R.check(ok and len(ev) == 2, key_of(sp, 'nondiff_states.append exactly once per argument'), sp, '_grad_split_fn must append exactly one entry (the non-differentiated state or None) per argument: %s' % why)
+  _once(R, repo, c, sp, ev, _returns(c), key_of(sp, 'nondiff_states.append exactly once per argument'), '_grad_split_fn must append exactly one entry (the non-differentiated state or None) per argument', 'nondiff_states.append')
   mg = ad.func('GradFn.__call__._grad_merge_fn')
   c = cfg_of(mg)
   ev = _call_nodes(c, mg, lambda x: astu.src(x.func) == 'self.nondiff_states.popleft')
-  ok, why = _once_before_each_return(c, ev, _returns(c))
-  R.check(ok, key_of(mg, 'nondiff_states.popleft exactly once per argument'), mg, '_grad_merge_fn must pop exactly one entry per argument: %s' % why)
+  _once(R, repo, c, mg, ev, _returns(c), key_of(mg, 'nondiff_states.popleft exactly once per argument'), '_grad_merge_fn must pop exactly one entry per argument', 'self.nondiff_states.popleft')
   it = repo.mod(IT)
   si = it.func('_scan_split_in')
   c = cfg_of(si)
@@ -55,12 +68,11 @@ def r1(R, repo):
   graph_rets = [r_ for r_ in _returns(c) if c.edge_guarded(r_, gt[0], 'T')]
   for dq in ('carry_deque', 'broadcast_deque'):
     ev = _call_nodes(c, si, lambda x: astu.src(x.func) == dq + '.append')
-    ok, why = _once_before_each_return(c, ev, graph_rets)
-    ok = ok and all(c.edge_guarded(e, gt[0], 'T') for e in ev)
-    R.check(ok and len(graph_rets) == 2, key_of(si, '%s.append exactly once per graph-node argument' % dq), si, '_scan_split_in must append to %s exactly once for every graph-node leaf (and never for plain arrays): %s' % (dq, why))
+    _once(R, repo, c, si, ev, graph_rets, key_of(si, '%s.append exactly once per graph-node argument' % dq), '_scan_split_in must append to %s exactly once for every graph-node leaf (and never for plain arrays)' % dq, dq + '.append',
+          extra_ok=all(c.edge_guarded(e, gt[0], 'T') for e in ev))
   ba = _call_nodes(c, si, lambda x: astu.src(x.func) == 'broadcast_arrays.append')
   nt = [n for n in c.nodes if n.kind == 'if' and astu.src(n.ast) == 'prefix is None' and c.edge_guarded(n, gt[0], 'F')]
-  R.check(len(ba) == 1 and len(nt) == 1 and c.edge_guarded(ba[0], nt[0], 'T'), key_of(si, 'broadcast arrays recorded for prefix None'), si, 'a plain array with axis None must be recorded in broadcast_arrays')
+  R.judge(len(ba) == 1 and len(nt) == 1, len(ba) == 1 and len(nt) == 1 and c.edge_guarded(ba[0], nt[0], 'T'), key_of(si, 'broadcast arrays recorded for prefix None'), si, 'a plain array with axis None must be recorded in broadcast_arrays')
   mi = it.func('_scan_merge_in')
   c = cfg_of(mi)
   nt = [n for n in c.nodes if n.kind == 'if' and astu.src(n.ast) == 'isinstance(x, extract.NodeStates)']
@@ -68,13 +80,12 @@ def r1(R, repo):
   rets = [r_ for r_ in _returns(c) if c.edge_guarded(r_, nt[0], 'T')]
   for dq in ('carry_deque', 'broadcast_deque'):
     ev = _call_nodes(c, mi, lambda x: astu.src(x.func) == dq + '.popleft')
-    ok, why = _once_before_each_return(c, ev, rets)
-    R.check(ok and len(rets) == 1, key_of(mi, '%s.popleft exactly once per NodeStates' % dq), mi, '_scan_merge_in must pop %s exactly once for every NodeStates leaf: %s' % (dq, why))
+    _once(R, repo, c, mi, ev, rets, key_of(mi, '%s.popleft exactly once per NodeStates' % dq), '_scan_merge_in must pop %s exactly once for every NodeStates leaf' % dq, dq + '.popleft')
   bp = _call_nodes(c, mi, lambda x: astu.src(x.func) == 'broadcast_arrays.popleft')
   bt = [n for n in c.nodes if n.kind == 'if' and astu.src(n.ast) == 'isinstance(x, Broadcasted)']
-  R.check(len(bp) == 1 and len(bt) == 1 and c.edge_guarded(bp[0], bt[0], 'T'), key_of(mi, 'broadcast arrays consumed for Broadcasted placeholders'), mi, 'a Broadcasted placeholder must be replaced by the next recorded broadcast array')
+  R.judge(len(bp) == 1 and len(bt) == 1, len(bp) == 1 and len(bt) == 1 and c.edge_guarded(bp[0], bt[0], 'T'), key_of(mi, 'broadcast arrays consumed for Broadcasted placeholders'), mi, 'a Broadcasted placeholder must be replaced by the next recorded broadcast array')
   mc = [x for x in astu.func_calls(mi) if astu.src(x.func) == 'ctx.merge']
-  R.check(len(mc) == 1 and [astu.src(a) for a in mc[0].args] == ['x.graphdef', '*x.states', '*carry_states', '*broadcast_states'], key_of(mi, 'merge(graphdef, vectorized, carry, broadcast)'), mi,
+  R.judge(len(mc) == 1 and len(mc[0].args) == 4, len(mc) == 1 and sorted(astu.src(a) for a in mc[0].args[1:]) == sorted(['*x.states', '*carry_states', '*broadcast_states']) and astu.src(mc[0].args[0]) == 'x.graphdef', key_of(mi, 'merge(graphdef, vectorized, carry, broadcast)'), mi,
           'the node must be rebuilt from its graphdef with the vectorized, carry and broadcast states')
   for q, op in (('_scan_split_out', 'append'), ('_scan_merge_out', 'popleft')):
     f = it.func(q)
@@ -83,7 +94,7 @@ def r1(R, repo):
       ev = _call_nodes(c, f, lambda x: astu.src(x.func) == '%s.%s' % (dq, op))
       tests = [n for n in c.nodes if n.kind == 'if' and astu.src(n.ast) == 'is_input_arg']
       ok = bool(ev) and all(any(c.edge_guarded(e, t, 'T') for t in tests) for e in ev)
-      R.check(ok, key_of(f, '%s.%s only for input arguments' % (dq, op)), f, '%s must touch %s only for the input-argument half (is_input_arg); outputs carry no carry/broadcast state' % (q, dq))
+      R.judge(bool(ev) and bool(tests), ok, key_of(f, '%s.%s only for input arguments' % (dq, op)), f, '%s must touch %s only for the input-argument half (is_input_arg); outputs carry no carry/broadcast state' % (q, dq))
   so = it.func('_scan_split_out')
   c = cfg_of(so)
   gt = [n for n in c.nodes if n.kind == 'if' and astu.src(n.ast) == 'graph.is_graph_node(x) or isinstance(x, variablelib.Variable)']
@@ -95,7 +106,7 @@ def r1(R, repo):
     ev = _call_nodes(c, so, lambda x: astu.src(x.func) == dq + '.append')
     for r_ in graph_rets:
       okall = okall and c.must_pass(c.entry, r_, ev, avoid_edges=cut + c.exc_edges())
-  R.check(okall and len(graph_rets) == 2, key_of(so, 'input graph nodes always record carry and broadcast states'), so, 'for an input argument _scan_split_out must append to both deques on every path')
+  R.judge(bool(graph_rets) and bool(it_tests), okall, key_of(so, 'input graph nodes always record carry and broadcast states'), so, 'for an input argument _scan_split_out must append to both deques on every path')
   sf = it.func('ScanFn.__call__')
   R.check('assert not carry_deque and (not broadcast_deque) and (not broadcast_arrays)' in astu.src(sf.node), key_of(sf, 'deques empty after merging the inputs'), sf, 'ScanFn.__call__ must assert that all deques were consumed by the merge')
 
@@ -138,7 +149,7 @@ def r2(R, repo):
     loops = [n for n in astu.body_walk(f.node) if isinstance(n, ast.For) and 'prefix.axes' in astu.src(n.iter)]
     R.require(len(loops) == 1, '%s: loop over prefix.axes not found' % q)
     t = _axis_table(loops[0])
-    R.check(t == want, key_of(f, 'StateAxes routing table'), (f, loops[0]), '%s routes axes as %s, expected %s' % (q, t, want))
+    R.judge(set(t) == set(want) and set(t.values()) <= set(want.values()), t == want, key_of(f, 'StateAxes routing table'), (f, loops[0]), '%s routes axes as %s, expected %s' % (q, t, want))
     if q != '_scan_merge_out':
       R.check('zip(states, prefix.axes)' in astu.src(loops[0].iter) or 'zip(states, prefix.filters, prefix.axes)' in astu.src(loops[0].iter), key_of(f, 'states paired with axes in filter order'), (f, loops[0]),
               '%s must pair the states returned by ctx.split(x, *prefix.filters) with prefix.axes positionally' % q)
@@ -150,7 +161,7 @@ def r2(R, repo):
   rs = [n for n in c.nodes if isinstance(n.stmt, ast.Raise)]
   t = [n for n in c.nodes if n.kind == 'if' and astu.src(n.ast) == 'predicate(path, variable)']
   ok = len(rets) == 1 and len(t) == 1 and c.edge_guarded(rets[0], t[0], 'T') and astu.src(rets[0].stmt.value) == 'axis' and len(rs) == 1 and 'zip(self.filters, self.axes)' in astu.src(mp.node)
-  R.check(ok, key_of(mp, 'first matching filter decides; no match raises'), mp, 'StateAxes.map_prefix must return the axis of the first matching filter and raise when none matches')
+  R.judge(len(rets) == 1 and len(t) == 1, ok, key_of(mp, 'first matching filter decides; no match raises'), mp, 'StateAxes.map_prefix must return the axis of the first matching filter and raise when none matches')
 
 
 def _moveaxis_calls(f):
@@ -164,16 +175,16 @@ def r3(R, repo):
   ins, outs = _moveaxis_calls(si), _moveaxis_calls(mo)
   R.require(len(ins) == 3 and len(outs) == 3, 'expected 3 jnp.moveaxis calls in _scan_split_in and in _scan_merge_out')
   for x in ins:
-    R.check(astu.is_const(x.args[2], 0) and not astu.is_const(x.args[1], 0), key_of(si, 'moveaxis(x, %s, 0)' % astu.src(x.args[1])), (si, x),
+    R.check(astu.is_const(x.args[2], 0) and not astu.is_const(x.args[1], 0), key_of(si, 'moveaxis(x, %s, 0)' % astu.src(x.args[1])), (si, x), evidence=True, msg_fail=
             '_scan_split_in must move the declared axis to position 0 (`%s`)' % astu.short(x))
   for x in outs:
-    R.check(astu.is_const(x.args[1], 0) and not astu.is_const(x.args[2], 0), key_of(mo, 'moveaxis(x, 0, %s)' % astu.src(x.args[2])), (mo, x),
+    R.check(astu.is_const(x.args[1], 0) and not astu.is_const(x.args[2], 0), key_of(mo, 'moveaxis(x, 0, %s)' % astu.src(x.args[2])), (mo, x), evidence=True, msg_fail=
             '_scan_merge_out must move position 0 back to the declared axis, i.e. jnp.moveaxis(x, 0, axis); `%s` applies the input-side permutation again, which differs from the inverse for axis >= 2' % astu.short(x))
   a_in = sorted(astu.src(x.args[1]) for x in ins)
   a_out = sorted(astu.src(x.args[2]) for x in outs)
   R.check(a_in == a_out, key_of(it.rel, 'same axis expressions on both sides'), si, 'axes moved in (%s) and moved back (%s) differ' % (a_in, a_out))
   so = it.func('_scan_split_out')
-  R.check(not _moveaxis_calls(so) and not _moveaxis_calls(it.func('_scan_merge_in')), key_of(it.rel, 'inner side does not move axes'), so, 'inside the scan body no axis may be moved (jax.lax.scan slices / stacks along axis 0)')
+  R.check(not _moveaxis_calls(so) and not _moveaxis_calls(it.func('_scan_merge_in')), key_of(it.rel, 'inner side does not move axes'), so, evidence=True, msg_fail= 'inside the scan body no axis may be moved (jax.lax.scan slices / stacks along axis 0)')
 
 
 @rule('C08.R4', 'K7', 3, 'grad differentiates exactly the state selected by the DiffState filter; the rest is closed over')
@@ -181,8 +192,7 @@ def r4(R, repo):
   ad = repo.mod(AD)
   sp = ad.func('_grad_general.grad_wrapper._grad_split_fn')
   src = astu.src(sp.node)
-  ok = 'graphdef, diff, nondiff = ctx.split(value, prefix.filter, ...)' in src and 'nondiff_states.append(nondiff)' in src and 'return extract.NodeStates.from_split(graphdef, diff)' in src
-  R.check(ok, key_of(sp, 'selected state differentiated, remainder to the deque'), sp, '_grad_split_fn must split the node into (graphdef, selected, rest), return only the selected state to jax and queue the rest')
+  evid.judge_stmts(R, sp, ['graphdef, diff, nondiff = ctx.split(value, prefix.filter, ...)', 'nondiff_states.append(nondiff)', 'return extract.NodeStates.from_split(graphdef, diff)'], key_of(sp, 'selected state differentiated, remainder to the deque'), sp, '_grad_split_fn must split the node into (graphdef, selected, rest), return only the selected state to jax and queue the rest')
   g = ad.func('_grad_general')
   R.check('DiffState(-1, variablelib.Param)' in astu.src(g.node), key_of(g, 'default filter is nnx.Param'), g, 'an integer argnum must default to differentiating nnx.Param')
   R.check("raise ValueError(f'argnum {index} is repeated in argnums')" in astu.src(g.node), key_of(g, 'repeated argnum rejected'), g, 'a repeated argnum must be rejected')
@@ -198,10 +208,9 @@ def r5(R, repo):
   c = cfg_of(gw)
   ev = _call_nodes(c, gw, lambda x: astu.call_name(x) == 'process_out')
   rets = _returns(c)
-  R.require(len(rets) == 4, 'grad_wrapper: four return paths expected')
-  ok, why = _once_before_each_return(c, ev, rets)
-  R.check(ok, key_of(gw, 'process_out exactly once before every return'), gw,
-          'grad_wrapper must call process_out (the outer from_tree that copies the updated state back onto the caller\'s objects) exactly once on each of its return paths: %s' % why)
+  R.require(len(rets) >= 1, 'grad_wrapper: return statements not found')
+  _once(R, repo, c, gw, ev, rets, key_of(gw, 'process_out exactly once before every return'),
+        'grad_wrapper must call process_out (the outer from_tree that copies the updated state back onto the caller\'s objects) exactly once on each of its return paths', 'process_out')
   po = ad.func('_grad_general.grad_wrapper.process_out')
   R.check("return extract.from_tree(pure_out, ctxtag='grad', is_inner=False)" in astu.src(po.node), key_of(po, 'outer merge with the grad tag'), po, "process_out must be the outer from_tree(..., ctxtag='grad', is_inner=False)")
 
@@ -215,7 +224,10 @@ def r6(R, repo):
   call = [n for n in c.nodes if isinstance(n.stmt, ast.Assign) and astu.src(n.stmt.value) == 'self.f(*args)']
   tt = _call_nodes(c, sf, lambda x: astu.call_name(x) == 'extract.to_tree')
   ok = len(chk) == 1 and len(call) == 1 and len(tt) == 1 and chk[0] in c.reach(call) and c.dominated(tt[0], chk)
-  R.check(ok, key_of(sf, 'carry references checked between the user call and to_tree'), sf, 'ScanFn.__call__ must check that the carry holds the same object references after the user function, before splitting the outputs')
+  if not chk and not evid.calls_deep(repo, sf, evid.call_named('_check_carry_same_references')):
+    R.fail(key_of(sf, 'carry references checked between the user call and to_tree'), sf, 'ScanFn.__call__ no longer checks that the carry holds the same object references after the user function')
+  else:
+    R.judge(len(chk) == 1 and len(call) == 1 and len(tt) == 1, ok, key_of(sf, 'carry references checked between the user call and to_tree'), sf,   'ScanFn.__call__ must check that the carry holds the same object references after the user function, before splitting the outputs')
   sc = it.func('scan')
   src = astu.src(sc.node)
   R.check('_check_out_axes(out_axes)' in src and '_get_carry_argnum(in_axes, is_in_axes=True)' in src and '_get_carry_argnum(out_axes, is_in_axes=False)' in src, key_of(sc, 'out_axes and Carry positions validated up front'), sc,
